@@ -6,6 +6,7 @@ import (
 	"go/types"
 	"os"
 	"strings"
+	"sync"
 
 	"golang.org/x/tools/go/ssa"
 )
@@ -283,11 +284,20 @@ func (m *Machine) callValue(fr *frame, fv Value, args []Value) Value {
 	return nil
 }
 
+var fnNameCache sync.Map
+
 func fnName(fn *ssa.Function) string {
-	if o := fn.Origin(); o != nil {
-		return o.String()
+	if s, ok := fnNameCache.Load(fn); ok {
+		return s.(string)
 	}
-	return fn.String()
+	var s string
+	if o := fn.Origin(); o != nil {
+		s = o.String()
+	} else {
+		s = fn.String()
+	}
+	fnNameCache.Store(fn, s)
+	return s
 }
 
 func (m *Machine) callFn(caller *frame, fn *ssa.Function, args []Value, env []Value) Value {
